@@ -38,7 +38,20 @@ CliClauses(r) ==
              THEN {IF p = "first_1" THEN "C11_StartParametersChanged"
                    ELSE IF p = "after_3" THEN "C11_RetryParametersDiffer" ELSE "C11_RestartParametersDiffer"} ELSE {})
      : p \in CliProbes })
-Clauses(r) == IF r.kind = "cli" THEN CliClauses(r) ELSE IF r.kind = "tok"
+\* kind "stop": the producing step repeats and the run is asked to stop while its second iteration executes; the iteration
+\* finishes (a repeating step is not signalled) and what it printed is the step's output: for the exit handler of the
+\* stopped run, and for the steps and the handler of the retry
+StopProbes == {"exit_1", "first_2", "after_2", "exit_2"}
+StopClauses(r) ==
+  (IF r.infra # "" THEN {"INFRA"} ELSE
+   UNION {
+     (IF r.probes[p].missing THEN {"C11_ConsumerDidNotRun"} ELSE {})
+     \cup (IF \E i \in DOMAIN r.probes[p].bad : r.probes[p].bad[i] \in OutVars
+             THEN {IF p = "exit_1" THEN "C11_OutputOfStoppedStepLost" ELSE "C11_OutputLostInRetry"} ELSE {})
+     \cup (IF \E i \in DOMAIN r.probes[p].bad : r.probes[p].bad[i] \notin OutVars
+             THEN {IF p = "exit_1" THEN "C11_ParameterValueChanged" ELSE "C11_RetryParametersDiffer"} ELSE {})
+     : p \in StopProbes })
+Clauses(r) == IF r.kind = "cli" THEN CliClauses(r) ELSE IF r.kind = "stop" THEN StopClauses(r) ELSE IF r.kind = "tok"
                 THEN (IF ~r.err /\ StringifyAll(Tokenize(r["in"])) # r.out THEN {"DRIFT_TokenizerDiffers"} ELSE {})
               ELSE RunClauses(r)
 TInit == l = 1 /\ bad = 0 /\ ps = <<>>
